@@ -38,7 +38,7 @@ from ..core import (
     unparse,
     walk_no_nested,
 )
-from ..flow import Opaque, _stmt_chain, always_exits, dealias, guards, inline, loops_around, reaching
+from ..flow import Opaque, _stmt_chain, always_exits, conditions, dealias, guards, inline, loops_around, reaching
 from ..resolve import enum_members, method_def, resolve_callee
 
 MODEL = "model.reconciliation"
@@ -1745,7 +1745,7 @@ def cli_flow_table(prog: Program) -> RuleResult:
             ]
             if not newline:
                 problems.append("no newline separates the documents (the output is no longer one JSON object per line)")
-            if any(guards(dfn, x) for x in [c] + newline if [g for g in guards(dfn, x)]):
+            if any(conditions(dfn, x) for x in [c] + newline):
                 problems.append("a solution is written only under a condition")
         if problems:
             res.fail(construct, "; ".join(problems), mod, loop)
@@ -1813,7 +1813,7 @@ def _dominating_tests(fn: ast.AST, node: ast.AST) -> List[Tuple[ast.AST, Optiona
     (test, True/False): the test has that value whenever the statement runs;
     (test, None): the statement is skipped on SOME path on which the test matters (a conditional
     `continue` / `return` nested in an earlier statement): the test must be harmless either way."""
-    out: List[Tuple[ast.AST, Optional[bool]]] = list(guards(fn, node))
+    out: List[Tuple[ast.AST, Optional[bool]]] = list(conditions(fn, node))
     cur = node
     parents: Dict[int, ast.AST] = {}
     for parent in ast.walk(fn):
@@ -2205,7 +2205,7 @@ def gain_at_lca(prog: Program) -> RuleResult:
             if dotted(fill.func.value.slice) != dotted(inner.target) or not fill.args or dotted(fill.args[0]) != leaf_var:
                 why = f"`{short(fill)}` does not record the leaf under the family"
                 continue
-            if [g for g, _p in guards(fn, fill)]:
+            if [g for g, _p in conditions(fn, fill)]:
                 why = f"`{short(fill)}` is conditional"
                 continue
             ok = True
@@ -2787,7 +2787,7 @@ def triples_source(prog: Program) -> RuleResult:
     feeds += [st for st in walk_no_nested(fn) if isinstance(st, ast.AugAssign) and dotted(st.target) == acc]
     if not feeds:
         raise AnalysisError("trees_to_triples: the triple accumulator is never fed")
-    if any(guards(fn, f) for f in feeds):
+    if any(conditions(fn, f) for f in feeds):
         res.fail(construct, f"`{short(feeds[0], 80)}` is conditional: some triples are left out", mod, feeds[0])
     else:
         res.ok(construct, f"`{acc}` receives every triple of every tree")
@@ -3560,7 +3560,7 @@ def triples_recursion(prog: Program) -> RuleResult:
     empties = [r for r in walk_no_nested(wrap) if isinstance(r, ast.Return) and isinstance(r.value, (ast.List, ast.Tuple)) and not r.value.elts]
     stray = []
     for r in empties:
-        gs = guards(wrap, r)
+        gs = conditions(wrap, r)
         verdict = [
             (t, pol) for t, pol in gs
             if isinstance(t, ast.Compare) and len(t.ops) == 1 and isinstance(t.ops[0], (ast.Is, ast.Eq)) and pol
